@@ -93,3 +93,71 @@ func VerifC10_EntityJSONWindow() {
 	_ = json.Unmarshal([]byte(`{"principal":`+doc+`,"action":{"type":"Action","id":"a"},"resource":{"type":"R","id":"r"},"context":{}}`), &req)
 	vrt.Assert("C10.entityjson.no-panic", true)
 }
+
+// JSON token level: partial and null-holding escape objects in every slot of an
+// entity document and as input of every typed decoder.
+func VerifC10_EntityJSONTokens() {
+	toks := []string{`null`, `1`, `"s"`, `[]`, `{}`, `{"id":"a"}`, `{"type":"T"}`, `{"type":null,"id":"a"}`, `{"type":"T","id":null}`,
+		`{"__entity":null}`, `{"__entity":{}}`, `{"__entity":{"id":"a"}}`, `{"__entity":{"type":"T","id":"a"}}`, `{"__entity":{"type":1,"id":"a"}}`,
+		`{"__extn":null}`, `{"__extn":{}}`, `{"__extn":{"fn":"decimal"}}`, `{"__extn":{"fn":"decimal","arg":null}}`, `{"__extn":{"fn":null,"arg":"1.0"}}`,
+		`{"fn":"ip"}`, `{"fn":"ip","arg":"1.2.3.4"}`, `{"arg":"1.0"}`, `{"type":"T","id":"a"}`, `[null]`, `{"k":null}`, `"1.0"`, `true`}
+	t := toks[vrt.Choice("token", len(toks))]
+	switch vrt.Choice("slot", 12) {
+	case 0:
+		var m EntityMap
+		_ = json.Unmarshal([]byte(`[{"uid":`+t+`,"parents":[],"attrs":{},"tags":{}}]`), &m)
+	case 1:
+		var m EntityMap
+		_ = json.Unmarshal([]byte(`[{"uid":{"type":"T","id":"a"},"parents":[`+t+`],"attrs":{},"tags":{}}]`), &m)
+	case 2:
+		var e Entity
+		if json.Unmarshal([]byte(`{"uid":{"type":"T","id":"a"},"parents":`+t+`,"attrs":{"x":`+t+`},"tags":{"y":`+t+`}}`), &e) == nil {
+			_ = e.Equal(e)
+			_, _ = e.MarshalJSON()
+		}
+	case 3:
+		var u EntityUID
+		if json.Unmarshal([]byte(t), &u) == nil {
+			_ = u.String()
+		}
+	case 4:
+		var d Decimal
+		_ = json.Unmarshal([]byte(t), &d)
+	case 5:
+		var d Duration
+		_ = json.Unmarshal([]byte(t), &d)
+	case 6:
+		var d Datetime
+		_ = json.Unmarshal([]byte(t), &d)
+	case 7:
+		var d IPAddr
+		_ = json.Unmarshal([]byte(t), &d)
+	case 8:
+		var s Set
+		if json.Unmarshal([]byte(`[`+t+`,`+t+`]`), &s) == nil {
+			_ = s.String()
+			_, _ = s.MarshalJSON()
+		}
+	case 9:
+		var r Record
+		if json.Unmarshal([]byte(`{"a":`+t+`,"__entity":`+t+`}`), &r) == nil {
+			_ = r.String()
+			_, _ = r.MarshalJSON()
+		}
+	case 10:
+		var p Pattern
+		if json.Unmarshal([]byte(`["Wildcard",`+t+`,{"Literal":`+t+`}]`), &p) == nil {
+			_, _ = p.MarshalJSON()
+			_ = p.MarshalCedar()
+		}
+	case 11:
+		var req Request
+		_ = json.Unmarshal([]byte(`{"principal":`+t+`,"action":{"type":"Action","id":"a"},"resource":`+t+`,"context":`+t+`}`), &req)
+		var d Decision
+		_ = json.Unmarshal([]byte(t), &d)
+		var g Diagnostic
+		_ = json.Unmarshal([]byte(`{"reasons":[`+t+`],"errors":`+t+`}`), &g)
+	}
+	vrt.Cover("C10.entityjsontokens.checked")
+	vrt.Assert("C10.entityjsontokens.no-panic", true)
+}
